@@ -15,6 +15,14 @@ CLAIMED = {
             BASE_NOTE + " Assumed: bytes.Buffer model (Write/WriteByte/Read/Bytes/Reset/NewBuffer), math.Float*bits as bit casts. "
             "tcp-backed DataInputX is outside the contracts (requires tcp == nil). The typed-array writers/readers are not under a byte-level contract yet.",
             TECH),
+    "C02": ("proof",
+            "Per value type a round-trip harness over the token view of io: decode(encode(v)) consumes the stream exactly, re-encodes to the same token stream and restores every field (floats bit-identical); "
+            "the factory returns a fresh empty value of the tagged type for each implemented code and panics otherwise; WriteValue/ReadValue unfolded per dynamic type (tag harnesses); lists and both map types with loop invariants: "
+            "same length, same keys in the same order, elements pairwise equal (valeq) — nesting to any depth by structural induction over the composite value token.",
+            "DESIGN.md §4 C02",
+            BASE_NOTE + " Token view of io assumed (abstraction of the byte-level contracts of C01). Trusted model of hmap.StringKeyLinkedMap/IntKeyLinkedMap (Put/Get/Keys/enumerators as an insertion-ordered dictionary, max == 0) "
+            "until C09 replaces it; valeq is an uninterpreted equivalence; the induction over value trees is a meta-argument. Byte layouts are pinned by C01, at value level the frozen harnesses are the reference encoder.",
+            TECH),
     "C04": ("proof",
             "No fabrication: every io Read* that returns normally consumed bytes that were present (postcondition of ReadBytes and of every reader built on it, byte-level contracts); "
             "strict-prefix harnesses: after decoding a strict prefix of a valid encoding the statement following the read is unreachable (the read panics) for int, long, decimal, blob, text, "
